@@ -18,6 +18,7 @@ class Case:
         self.monitor = []      # [{'property':..., 'sig':..., 'detail':..., 'step':...}]
         self.tags = collections.Counter()
         self.stopped = None    # reason the implementation run stopped early (exception)
+        self.trace = None      # {"points": [...], "last": ..., "rewards": [...]} for relational checks
 
     def op(self, line, expected):
         self.ops.append((line, expected))
